@@ -96,7 +96,7 @@ pub fn gen_expr(ch: &mut Chooser, depth: usize, leaves: &[E]) -> E {
     }
 }
 
-pub const LEVELS: [&str; 8] = ["file", "struct", "enum", "alias", "const", "variant", "field", "variant_field"];
+pub const LEVELS: [&str; 10] = ["file", "struct", "enum", "alias", "const", "variant", "field", "variant_field", "struct_with_serialized_as", "enum_with_serialized_as"];
 
 fn attrs(exprs: &[E]) -> String {
     exprs.iter().map(|e| format!("#[cfg({})]", e.render())).collect::<Vec<_>>().join(" ")
@@ -110,11 +110,14 @@ pub fn source_items(exprs: &[E], cfg_first: bool) -> String {
         "{}\npub struct GS {{ pub a: u32 }}\n{}\npub enum GE {{ A }}\n{}\npub type GA = u32;\n{}\npub const GC: u32 = 1;\n\
          #[typeshare]\npub struct HF {{ pub keep: u32, {g} pub guarded: u32, pub tail: u32 }}\n\
          #[typeshare]\n#[serde(tag = \"t\", content = \"c\")]\npub enum HV {{ Keep, {g} Guarded, Sv {{ keep: u32, {g} guarded: u32, tail: u32 }}, Tail(u32) }}\n\
+         {}\npub struct GSA {{ pub a: u32 }}\n{}\npub enum GEA {{ A, B }}\n\
          #[typeshare]\npub struct Control {{ pub x: u32 }}\n",
         ts(&g),
         ts(&g),
         ts(&g),
-        ts(&g)
+        ts(&g),
+        if cfg_first { format!("{g}\n#[typeshare(serialized_as = \"String\")]") } else { format!("#[typeshare(serialized_as = \"String\")]\n{g}") },
+        if cfg_first { format!("{g}\n#[typeshare(serialized_as = \"String\")]") } else { format!("#[typeshare(serialized_as = \"String\")]\n{g}") }
     )
 }
 
@@ -124,9 +127,9 @@ pub fn source_file_level(exprs: &[E]) -> String {
 }
 
 /// presence of the guarded element per level, observed in the real parse result
-pub fn observe(exprs: &[E], t: &[&str], cfg_first: bool) -> Result<[Option<bool>; 8], String> {
+pub fn observe(exprs: &[E], t: &[&str], cfg_first: bool) -> Result<[Option<bool>; 10], String> {
     let cfg = Cfg { target_os: t.iter().map(|s| s.to_string()).collect(), ..Cfg::plain() };
-    let mut out = [None; 8];
+    let mut out = [None; 10];
     match pipeline::parse_only(&[SrcFile::single(source_file_level(exprs))], &cfg) {
         Ok(m) => {
             let present = m.values().next().map(|pd| pd.structs.iter().any(|s| s.id.original == "FS") && pd.enums.iter().any(|e| e.shared().id.original == "FE"));
@@ -152,6 +155,9 @@ pub fn observe(exprs: &[E], t: &[&str], cfg_first: bool) -> Result<[Option<bool>
             out[2] = Some(pd.enums.iter().any(|e| e.shared().id.original == "GE"));
             out[3] = Some(pd.aliases.iter().any(|a| a.id.original == "GA"));
             out[4] = Some(pd.consts.iter().any(|c| c.id.original == "GC"));
+            // an item with typeshare(serialized_as) is carried as an alias
+            out[8] = Some(pd.aliases.iter().any(|a| a.id.original == "GSA") || pd.structs.iter().any(|s| s.id.original == "GSA"));
+            out[9] = Some(pd.aliases.iter().any(|a| a.id.original == "GEA") || pd.enums.iter().any(|e| e.shared().id.original == "GEA"));
             let hv = pd.enums.iter().find(|e| e.shared().id.original == "HV");
             let hf = pd.structs.iter().find(|s| s.id.original == "HF");
             if let Some(hv) = hv {
@@ -381,7 +387,7 @@ pub fn run(args: &[String]) -> i32 {
     let tier = report::tier_from_env(args);
     let mut rep = Report::new("C13", &tier);
     let thorough = rep.thorough();
-    let all_levels: Vec<usize> = (0..8).collect();
+    let all_levels: Vec<usize> = (0..10).collect();
 
     // negative controls for the oracle
     {
@@ -395,11 +401,11 @@ pub fn run(args: &[String]) -> i32 {
         // observation must really see a dropped element
         match observe(&[E::Os("a")], &["b"], false) {
             Ok(o) if o.iter().all(|x| *x == Some(false)) => {}
-            other => rep.machinery(format!("control: cfg(target_os=a) with T=[b] should drop all 8 levels, observed {other:?}")),
+            other => rep.machinery(format!("control: cfg(target_os=a) with T=[b] should drop all levels, observed {other:?}")),
         }
         match observe(&[E::Os("a")], &["a"], true) {
             Ok(o) if o.iter().all(|x| *x == Some(true)) => {}
-            other => rep.machinery(format!("control: cfg(target_os=a) with T=[a] should keep all 8 levels, observed {other:?}")),
+            other => rep.machinery(format!("control: cfg(target_os=a) with T=[a] should keep all levels, observed {other:?}")),
         }
     }
 
@@ -424,7 +430,7 @@ pub fn run(args: &[String]) -> i32 {
             report::threads(),
             u64::MAX,
         );
-        merge(&mut rep, "single_attribute_depth3", accs, stats, json!({"expr_depth": depth_a + 1, "leaves": 5, "target_lists": 16, "levels": 8, "attribute_orders": 2}));
+        merge(&mut rep, "single_attribute_depth3", accs, stats, json!({"expr_depth": depth_a + 1, "leaves": 5, "target_lists": 16, "levels": 10, "attribute_orders": 2}));
     }
     // 1b. the guards decide whether an untagged enum is a unit enum: single attribute depth ≤ 2 and pairs of leaves
     {
@@ -540,7 +546,7 @@ pub fn run(args: &[String]) -> i32 {
             report::threads(),
             u64::MAX,
         );
-        merge(&mut rep, "single_attribute_depth4_reduced", accs, stats, json!({"expr_depth": 4, "leaves": 3, "target_lists": 7, "levels": 8}));
+        merge(&mut rep, "single_attribute_depth4_reduced", accs, stats, json!({"expr_depth": 4, "leaves": 3, "target_lists": 7, "levels": 10}));
     }
     rep.cov("exhaustive", json!(true));
     rep.cov("rule", json!("every cfg expression of the grammar up to the stated depth × every target list × 8 attachment levels, each parsed by the real parser::parse with ParseContext.target_os; non-trivial = the expression names at least one target_os and the target list is non-empty; distinct by (attribute text, target list, level) — each such triple is generated exactly once by the enumeration, so the count is a plain counter. states = distinct cfg attribute sets, transitions = explorer choice points"));
